@@ -1201,3 +1201,353 @@ Proof.
   destruct (cx_facts t _ _ _ _ _ _ _ _ _ E (fun y H => H) (fun y H => H) Hpg Hpre) as [[D [_ [_ [_ [N1 _]]]]] _].
   eapply copy_x_shape; [exact E | exact Hwk | exact Hpg | eapply NoDup_map_inv; exact N1].
 Qed.
+
+(* ======================================================================================================== *)
+(* Audit 2, A15 — the premises of the shape theorems hold in every reachable state                           *)
+(* ======================================================================================================== *)
+(* row-level form of [well_kinded]: only objects carry property groups, children have a kind their parent can hold *)
+Definition row_ok (r : row) : Prop :=
+  (fst (rkey r) <> KO -> apgs (rattrs r) = []) /\ (forall c, In c (rkids r) -> can_hold (fst (rkey r)) (fst c) = true).
+Definition kind_ok (t : tree) : Prop := forall r, In r (rows t) -> row_ok r.
+
+Lemma kind_ok_kid k a l c : kind_ok (Node k a l) -> In c l -> kind_ok c.
+Proof. intros H Hc r Hr. apply H. rewrite rows_eq. right. apply in_flat_map. exists c. split; assumption. Qed.
+
+Lemma kind_ok_node k a l : row_ok (k, a, map tkey l) -> (forall c, In c l -> kind_ok c) -> kind_ok (Node k a l).
+Proof.
+  intros H0 Hl r Hr. rewrite rows_eq in Hr. destruct Hr as [<-|Hr]; [exact H0|].
+  apply in_flat_map in Hr. destruct Hr as [c [Hc Hr]]. exact (Hl c Hc r Hr).
+Qed.
+
+Lemma kind_ok_root k a l : kind_ok (Node k a l) -> row_ok (k, a, map tkey l).
+Proof. intros H. apply H. rewrite rows_eq. left. reflexivity. Qed.
+
+Lemma no_kids_of_data (l : list tree) : (forall c, In c (map tkey l) -> can_hold KD (fst c) = true) -> l = [].
+Proof. destruct l as [|c r]; [reflexivity|]. intros H. specialize (H (tkey c) (or_introl eq_refl)). discriminate. Qed.
+
+Lemma kind_ok_wk t : kind_ok t -> well_kinded t.
+Proof.
+  induction t as [k a l IH] using tree_ind'. intros H. destruct (kind_ok_root _ _ _ H) as [Ha Hk].
+  unfold rkey, rattrs, rkids in Ha, Hk. simpl in Ha, Hk. simpl. destruct (fst k) eqn:Ek.
+  - split; [apply Ha; discriminate|]. rewrite Forall_forall in IH.
+    assert (Hl : forall c, In c l -> well_kinded c) by (intros c Hc; apply IH; [exact Hc | eapply kind_ok_kid; eassumption]).
+    clear - Hl. induction l as [|c r IHr]; [exact I|]. split; [apply Hl; left; reflexivity | apply IHr; intros c' Hc'; apply Hl; right; exact Hc'].
+  - intros c Hc. pose proof (Hk (tkey c) (in_map tkey _ _ Hc)) as Hh. pose proof (kind_ok_kid _ _ _ _ H Hc) as Hkc.
+    destruct c as [kc ac lc]. destruct (kind_ok_root _ _ _ Hkc) as [Hac Hkk].
+    unfold rkey, rattrs, rkids in Hac, Hkk. simpl in Hac, Hkk, Hh. unfold leaf_data. simpl.
+    assert (Ekc : fst kc = KD) by (destruct (fst kc); simpl in Hh; try discriminate; reflexivity).
+    split; [exact Ekc|]. split; [apply Hac; rewrite Ekc; discriminate|]. apply no_kids_of_data. rewrite <- Ekc. exact Hkk.
+  - split; [apply Ha; discriminate | apply no_kids_of_data; exact Hk].
+Qed.
+
+(* the tree operations of the model, unconditionally *)
+Lemma tkey_upd x f t : (forall s, tkey (f s) = tkey s) -> tkey (upd x f t) = tkey t.
+Proof. intros Hf. destruct t as [k a l]. rewrite upd_eq. destruct (key_eqb x k); [apply Hf | reflexivity]. Qed.
+
+Lemma upd_kind_ok x f t : (forall s, tkey (f s) = tkey s) -> (forall s, tkey s = x -> kind_ok s -> kind_ok (f s)) ->
+  kind_ok t -> kind_ok (upd x f t).
+Proof.
+  intros Hk Hf. induction t as [k a l IH] using tree_ind'. intros H. rewrite upd_eq. keq x k.
+  - apply Hf; [simpl; congruence | exact H].
+  - apply kind_ok_node.
+    + rewrite map_map. rewrite (map_ext _ tkey (fun c => tkey_upd x f c Hk)). apply kind_ok_root. exact H.
+    + intros c Hc. apply in_map_iff in Hc. destruct Hc as [c0 [<- Hc0]]. rewrite Forall_forall in IH.
+      apply IH; [exact Hc0 | eapply kind_ok_kid; eassumption].
+Qed.
+
+Lemma prune_kind_ok x t : kind_ok t -> kind_ok (prune x t).
+Proof.
+  induction t as [k a l IH] using tree_ind'. intros H. rewrite prune_eq. apply kind_ok_node.
+  - destruct (kind_ok_root _ _ _ H) as [Ha Hkk]. split; [exact Ha|]. unfold rkey, rkids in *. simpl in *.
+    intros c Hc. apply Hkk. unfold prune_list in Hc. rewrite map_map in Hc. apply in_map_iff in Hc. destruct Hc as [c0 [<- Hc0]].
+    rewrite tkey_prune. apply in_map. apply filter_In in Hc0. apply Hc0.
+  - intros c Hc. unfold prune_list in Hc. apply in_map_iff in Hc. destruct Hc as [c0 [<- Hc0]]. apply filter_In in Hc0.
+    rewrite Forall_forall in IH. apply IH; [apply Hc0 | eapply kind_ok_kid; [exact H | apply Hc0]].
+Qed.
+
+Lemma add_kid_kind_ok c s : can_hold (fst (tkey s)) (fst (tkey c)) = true -> kind_ok c -> kind_ok s -> kind_ok (add_kid c s).
+Proof.
+  intros Hh Hc H. destruct s as [k a l]. simpl. apply kind_ok_node.
+  - destruct (kind_ok_root _ _ _ H) as [Ha Hk]. split; [exact Ha|]. unfold rkey, rkids in *. simpl in *.
+    intros y Hy. rewrite map_app in Hy. apply in_app_or in Hy. destruct Hy as [Hy|[<-|[]]]; [apply Hk; exact Hy | exact Hh].
+  - intros y Hy. apply in_app_or in Hy. destruct Hy as [Hy|[<-|[]]]; [eapply kind_ok_kid; eassumption | exact Hc].
+Qed.
+
+Lemma set_attrs_kind_ok a' s : (fst (tkey s) <> KO -> apgs a' = []) -> kind_ok s -> kind_ok (set_attrs a' s).
+Proof.
+  intros Ha H. destruct s as [k a l]. simpl. apply kind_ok_node.
+  - destruct (kind_ok_root _ _ _ H) as [_ Hk]. split; [exact Ha | exact Hk].
+  - intros c Hc. eapply kind_ok_kid; eassumption.
+Qed.
+
+Lemma scrub_nil c : scrub c [] = [].
+Proof. reflexivity. Qed.
+
+Lemma forget_kind_ok x t : kind_ok t -> kind_ok (forget x t).
+Proof.
+  intros H. unfold forget. apply prune_kind_ok. destruct (fst x); try exact H. destruct (parent_of x t) as [p|]; [|exact H].
+  apply upd_kind_ok; [intros [k a l]; reflexivity | | exact H].
+  intros [k a l] _ Hs. simpl. apply kind_ok_node.
+  - destruct (kind_ok_root _ _ _ Hs) as [Ha Hk]. split; [|exact Hk]. unfold rkey, rattrs in *. simpl in *.
+    intros Hne. rewrite (Ha Hne). reflexivity.
+  - intros c Hc. eapply kind_ok_kid; eassumption.
+Qed.
+
+Lemma found_kind_ok e t s : kind_ok t -> find e t = Some s -> kind_ok s.
+Proof. intros H F r Hr. apply find_ctx in F. destruct F as [C ->]. apply H. apply rows_plug_in. left. exact Hr. Qed.
+
+(* copies keep the kind of their root and are well kinded *)
+Definition copy_kind_ok (t : tree) : Prop := forall ids t' rest, copy_sub t ids = Some (t', rest) -> kind_ok t ->
+  kind_ok t' /\ fst (tkey t') = fst (tkey t).
+
+Lemma leaf_kind_ok j a : kind_ok (Node (KD, j) (with_pgs a []) []).
+Proof. intros r [<-|[]]. split; [reflexivity | intros c []]. Qed.
+
+Lemma copy_list_kind l : Forall copy_kind_ok l -> forall ids l' rest, copy_list l ids = Some (l', rest) ->
+  (forall c, In c l -> kind_ok c) -> (forall c, In c l' -> kind_ok c) /\ map (fun c => fst (tkey c)) l' = map (fun c => fst (tkey c)) l.
+Proof.
+  intros H. induction H as [|c r Hc Hr IH]; intros ids l' rest E Hk; simpl in E.
+  - inversion E; subst. split; [intros c [] | reflexivity].
+  - destruct (copy_sub c ids) as [[c' ids']|] eqn:E1; [|discriminate].
+    destruct (copy_list r ids') as [[r' ids'']|] eqn:E2; [|discriminate]. inversion E; subst.
+    destruct (Hc _ _ _ E1 (Hk c (or_introl eq_refl))) as [K1 K2].
+    destruct (IH _ _ _ E2 (fun c0 H0 => Hk c0 (or_intror H0))) as [K3 K4].
+    split; [intros y [<-|Hy]; [exact K1 | apply K3; exact Hy] | simpl; rewrite K2, K4; reflexivity].
+Qed.
+
+Lemma kinds_hold k (l l' : list tree) : map (fun c => fst (tkey c)) l' = map (fun c => fst (tkey c)) l ->
+  (forall c, In c (map tkey l) -> can_hold k (fst c) = true) -> forall c, In c (map tkey l') -> can_hold k (fst c) = true.
+Proof.
+  intros E H c Hc. apply in_map_iff in Hc. destruct Hc as [c' [<- Hc']].
+  assert (Hin : In (fst (tkey c')) (map (fun c => fst (tkey c)) l')) by (apply in_map_iff; exists c'; split; [reflexivity | exact Hc']).
+  rewrite E in Hin. apply in_map_iff in Hin. destruct Hin as [c0 [E0 Hc0]]. rewrite <- E0. apply H. apply in_map. exact Hc0.
+Qed.
+
+Lemma copy_sub_kind t : copy_kind_ok t.
+Proof.
+  induction t as [k a l IH] using tree_ind'. intros ids t' rest E H. rewrite copy_sub_eq in E.
+  destruct ids as [|i ids1]; [discriminate|]. destruct (kind_ok_root _ _ _ H) as [Ha Hk]. unfold rkey, rattrs, rkids in Ha, Hk. simpl in Ha, Hk.
+  destruct (fst k) eqn:Ek.
+  - destruct (copy_list l ids1) as [[l' ids2]|] eqn:El; [|discriminate]. inversion E; subst.
+    destruct (copy_list_kind l IH _ _ _ El (fun c Hc => kind_ok_kid _ _ _ _ H Hc)) as [K1 K2].
+    split; [|simpl; rewrite Ek; reflexivity]. apply kind_ok_node; [|exact K1].
+    split; [reflexivity|]. unfold rkey, rkids. simpl. apply (kinds_hold KG l l' K2 Hk).
+  - unfold copy_obj in E. destruct (Nat.ltb (length ids1) (length l + length (apgs a))); [discriminate|]. inversion E; subst.
+    split; [|simpl; rewrite Ek; reflexivity]. apply kind_ok_node.
+    + split; [intros Hne; exfalso; apply Hne; reflexivity|]. unfold rkey, rkids. simpl. intros c Hc.
+      rewrite map_map in Hc. apply in_map_iff in Hc. destruct Hc as [[c0 j] [<- _]]. reflexivity.
+    + intros c Hc. apply in_map_iff in Hc. destruct Hc as [[c0 j] [<- _]]. apply leaf_kind_ok.
+  - inversion E; subst. split; [apply leaf_kind_ok | simpl; rewrite Ek; reflexivity].
+Qed.
+
+Definition cx_kind_ok (t : tree) : Prop := forall used pgused ids t' u' pu' rest,
+  copy_x used pgused t ids = Some (t', u', pu', rest) -> kind_ok t -> kind_ok t' /\ fst (tkey t') = fst (tkey t).
+
+Lemma cx_list_kind l : Forall cx_kind_ok l -> forall st l' u' pu' rest, cx_list l st = Some (l', u', pu', rest) ->
+  (forall c, In c l -> kind_ok c) -> (forall c, In c l' -> kind_ok c) /\ map (fun c => fst (tkey c)) l' = map (fun c => fst (tkey c)) l.
+Proof.
+  intros H. induction H as [|c r Hc Hr IH]; intros [[u pu] rr] l' u' pu' rest E Hk; simpl in E.
+  - inversion E; subst. split; [intros c [] | reflexivity].
+  - destruct (copy_x u pu c rr) as [[[[c' u1] pu1] r1]|] eqn:E1; [|discriminate].
+    destruct (cx_list r (u1, pu1, r1)) as [[[[l1 u2] pu2] r2]|] eqn:E2; [|discriminate]. inversion E; subst.
+    destruct (Hc _ _ _ _ _ _ _ E1 (Hk c (or_introl eq_refl))) as [K1 K2].
+    destruct (IH _ _ _ _ _ E2 (fun c0 H0 => Hk c0 (or_intror H0))) as [K3 K4].
+    split; [intros y [<-|Hy]; [exact K1 | apply K3; exact Hy] | simpl; rewrite K2, K4; reflexivity].
+Qed.
+
+Lemma copy_x_kind t : cx_kind_ok t.
+Proof.
+  induction t as [k a l IH] using tree_ind'. intros used pgused ids t' u' pu' rest E H. rewrite copy_x_eq in E.
+  destruct (pick used (snd k) ids) as [[i ids1]|]; [|discriminate].
+  destruct (kind_ok_root _ _ _ H) as [Ha Hk]. unfold rkey, rattrs, rkids in Ha, Hk. simpl in Ha, Hk.
+  destruct (fst k) eqn:Ek.
+  - destruct (cx_list l (i :: used, pgused, ids1)) as [[[[l' u1] pu1] r1]|] eqn:El; [|discriminate]. inversion E; subst.
+    destruct (cx_list_kind l IH _ _ _ _ _ El (fun c Hc => kind_ok_kid _ _ _ _ H Hc)) as [K1 K2].
+    split; [|simpl; rewrite Ek; reflexivity]. apply kind_ok_node; [|exact K1].
+    split; [reflexivity|]. unfold rkey, rkids. simpl. apply (kinds_hold KG l l' K2 Hk).
+  - destruct (cx_kids l (i :: used, ids1)) as [[[kids u1] r1]|] eqn:Ekd; [|discriminate].
+    destruct (cx_pgs (kid_cmap kids) (apgs a) (pgused, r1)) as [[[pgs' pu1] r2]|]; [|discriminate]. inversion E; subst.
+    pose proof (cx_kids_shape _ _ _ _ _ Ekd) as Sk.
+    split; [|simpl; rewrite Ek; reflexivity]. apply kind_ok_node.
+    + split; [intros Hne; exfalso; apply Hne; reflexivity|]. unfold rkey, rkids. simpl. intros c Hc.
+      rewrite map_map in Hc. apply in_map_iff in Hc. destruct Hc as [p [<- Hp]].
+      destruct (forall2_in_r _ _ _ Sk p Hp) as [c0 [_ [_ [j Ej]]]]. rewrite Ej. reflexivity.
+    + intros c Hc. apply in_map_iff in Hc. destruct Hc as [p [<- Hp]].
+      destruct (forall2_in_r _ _ _ Sk p Hp) as [c0 [_ [_ [j Ej]]]]. rewrite Ej. apply leaf_kind_ok.
+  - inversion E; subst. split; [apply leaf_kind_ok | simpl; rewrite Ek; reflexivity].
+Qed.
+
+Lemma kind_ok_equiv t t' : tree_equiv t' t -> kind_ok t -> kind_ok t'.
+Proof.
+  intros He H r' Hr'. destruct (rows_equiv _ _ He r' Hr') as [r [Hr [Ek [Ea Ekid]]]]. destruct (H r Hr) as [Ha Hk]. split.
+  - intros Hne. rewrite <- Ek in Hne. pose proof (Ha Hne) as E0. destruct Ea as [_ [_ [_ [_ El]]]]. rewrite E0 in El.
+    apply length_zero_iff_nil. exact El.
+  - intros c Hc. rewrite <- Ek. apply Hk. apply Ekid. exact Hc.
+Qed.
+
+Lemma do_set_kind w e g wr : (forall a, apgs (g a) = apgs a) -> kind_ok (wmem w) -> kind_ok (wmem (fst (do_set w e g wr))).
+Proof.
+  intros Hg H. unfold do_set. destruct (find e (wmem w)) as [te|] eqn:F; [|exact H]. destruct (key_eqb e rootkey); [exact H|]. simpl.
+  apply upd_kind_ok; [intros [k a l]; reflexivity | | exact H].
+  intros s Hs Hks. apply set_attrs_kind_ok; [|exact Hks]. intros Hne. rewrite Hg.
+  pose proof (found_kind_ok _ _ _ H F) as Hte. destruct te as [k a l]. destruct (kind_ok_root _ _ _ Hte) as [Ha _].
+  unfold rkey, rattrs in Ha. simpl in Ha. simpl. apply Ha. apply find_tkey in F. simpl in F. rewrite F, <- Hs. exact Hne.
+Qed.
+
+Lemma forget_all_kind gone : forall t, kind_ok t -> kind_ok (forget_all gone t).
+Proof. induction gone as [|g r IH]; intros t H; [exact H|]. unfold forget_all in *. simpl. apply IH. apply forget_kind_ok. exact H. Qed.
+
+Lemma kind_ok_step w o orph : Rep (wmem w) (wfile w) (wpend w ++ orph) -> kind_ok (wmem w) -> kind_ok (wmem (fst (step w o))).
+Proof.
+  intros R H. destruct o as [k u p nm ar | e n | e b | e v | e q | e | e | k | | o g nm ms | o g | e q ids]; unfold step.
+  - unfold do_create. destruct (find p (wmem w)) as [sp|] eqn:Fp; [|exact H].
+    destruct (negb (can_hold (fst p) k) || mem_key (k, u) (keys_of (wmem w))) eqn:Ec; [exact H|]. simpl.
+    apply orb_false_iff in Ec. destruct Ec as [Ec _]. apply negb_false_iff in Ec.
+    apply upd_kind_ok; [intros [k0 a0 l0]; reflexivity | | exact H].
+    intros s Hs Hks. apply add_kid_kind_ok; [rewrite Hs; exact Ec | | exact Hks].
+    intros r [<-|[]]. split; [reflexivity | intros c []].
+  - apply do_set_kind; [reflexivity | exact H].
+  - apply do_set_kind; [reflexivity | exact H].
+  - apply do_set_kind; [reflexivity | exact H].
+  - unfold do_move. destruct (find e (wmem w)) as [te|] eqn:Fe; [|exact H]. destruct (find q (wmem w)); [|exact H].
+    destruct (parent_of e (wmem w)) as [p|]; [|exact H].
+    destruct (negb (can_hold (fst q) (fst e)) || mem_key q (keys_of te)) eqn:Ec; [exact H|]. destruct (key_eqb p q); [exact H|]. simpl.
+    apply orb_false_iff in Ec. destruct Ec as [Ec _]. apply negb_false_iff in Ec.
+    apply upd_kind_ok; [intros [k0 a0 l0]; reflexivity | | apply forget_kind_ok; exact H].
+    intros s Hs Hks. apply add_kid_kind_ok; [rewrite Hs, (find_tkey _ _ _ Fe); exact Ec | exact (found_kind_ok _ _ _ H Fe) | exact Hks].
+  - destruct (key_eqb e rootkey); [exact H|]. unfold do_remove_ws.
+    destruct (find e (wmem w)) as [te|]; [|exact H]. destruct (parent_of e (wmem w)) as [p|]; [|exact H]. cbv zeta.
+    destruct (rm_ws p _ te (wfile w)) as [f' ok]. destruct (rm_ws_done te) as [gone b]. simpl. apply (forget_all_kind gone). exact H.
+  - destruct (key_eqb e rootkey); [exact H|]. unfold do_remove_parent.
+    destruct (find e (wmem w)) as [te|]; [|exact H]. destruct (parent_of e (wmem w)) as [p|]; [|exact H]. simpl.
+    apply forget_kind_ok. exact H.
+  - exact H.
+  - destruct (rep_reopen _ _ R) as [_ [He _]]. eapply kind_ok_equiv; [exact He | exact H].
+  - unfold do_pg_add. destruct (find o (wmem w)) as [t|]; [|exact H].
+    destruct (negb (kind_eqb (fst o) KO)) eqn:Ek; [exact H|].
+    destruct (filter (fun m => kind_eqb (fst m) KD && mem_key m (kid_keys t)) ms); [exact H|]. simpl.
+    apply negb_false_iff in Ek. apply kind_eqb_eq in Ek.
+    apply upd_kind_ok; [intros [k0 a0 l0]; reflexivity | | exact H].
+    intros s Hs Hks. apply set_attrs_kind_ok; [|exact Hks]. intros Hne. exfalso. apply Hne. rewrite Hs. exact Ek.
+  - unfold do_pg_remove. destruct (find o (wmem w)) as [t|]; [|exact H].
+    destruct (existsb (fun h => N.eqb (pg_id h) g) (apgs (tattrs t))); [|exact H]. simpl.
+    apply upd_kind_ok; [intros [k0 a0 l0]; reflexivity | | exact H].
+    intros s Hs Hks. apply set_attrs_kind_ok; [|exact Hks]. intros Hne. destruct s as [k0 a0 l0].
+    destruct (kind_ok_root _ _ _ Hks) as [Ha _]. unfold rkey, rattrs in Ha. simpl in Ha, Hne. simpl. rewrite (Ha Hne). reflexivity.
+  - unfold do_copy. destruct (find e (wmem w)) as [te|] eqn:Fe; [|exact H]. destruct (find q (wmem w)); [|exact H].
+    destruct (negb (can_hold (fst q) (fst e)) || mem_key q (keys_of te) || key_eqb e rootkey) eqn:Ec; [exact H|].
+    destruct (copy_sub te ids) as [[t' [|i r]]|] eqn:Ecp; try exact H.
+    destruct (existsb (fun k => mem_key k (keys_of (wmem w))) (keys_of t')); [exact H|]. simpl.
+    apply orb_false_iff in Ec. destruct Ec as [Ec _]. apply orb_false_iff in Ec. destruct Ec as [Ec _]. apply negb_false_iff in Ec.
+    destruct (copy_sub_kind te _ _ _ Ecp (found_kind_ok _ _ _ H Fe)) as [K1 K2].
+    apply upd_kind_ok; [intros [k0 a0 l0]; reflexivity | | exact H].
+    intros s Hs Hks. apply add_kid_kind_ok; [rewrite Hs, K2, (find_tkey _ _ _ Fe); exact Ec | exact K1 | exact Hks].
+Qed.
+
+Lemma do_copy_x_kind src tgt e q ids : kind_ok (wmem src) -> kind_ok (wmem tgt) -> kind_ok (wmem (fst (do_copy_x src tgt e q ids))).
+Proof.
+  intros Hs H. unfold do_copy_x. destruct (find e (wmem src)) as [te|] eqn:Fe; [|exact H]. destruct (find q (wmem tgt)); [|exact H].
+  destruct (negb (can_hold (fst q) (fst e)) || key_eqb e rootkey) eqn:Ec; [exact H|].
+  destruct (copy_x (map snd (keys_of (wmem tgt))) (all_pg_ids (wmem tgt)) te ids) as [[[[t' u'] pu'] [|j r]]|] eqn:Ecp; try exact H.
+  simpl. apply orb_false_iff in Ec. destruct Ec as [Ec _]. apply negb_false_iff in Ec.
+  destruct (copy_x_kind te _ _ _ _ _ _ _ Ecp (found_kind_ok _ _ _ Hs Fe)) as [K1 K2].
+  apply upd_kind_ok; [intros [k0 a0 l0]; reflexivity | | exact H].
+  intros s Hq Hks. apply add_kid_kind_ok; [rewrite Hq, K2, (find_tkey _ _ _ Fe); exact Ec | exact K1 | exact Hks].
+Qed.
+
+Definition WKind (W : world) : Prop := kind_ok (wmem (wa W)) /\ kind_ok (wmem (wb W)).
+
+Lemma init_kind_ok : kind_ok (wmem init).
+Proof. intros r [<-|[]]. split; [reflexivity | intros c []]. Qed.
+
+Lemma wkind_step W o oa ob : WInv W oa ob -> WKind W -> WKind (fst (wstep W o)).
+Proof.
+  intros [Ra Rb] [Ka Kb]. destruct o as [i o|i e q ids].
+  - destruct (wstep_on i o W) as [E _]. rewrite E. destruct i; simpl; split; try assumption; eapply kind_ok_step; eassumption.
+  - destruct (wstep_copyx i e q ids W) as [E _]. rewrite E. destruct i; simpl; split; try assumption; apply do_copy_x_kind; assumption.
+Qed.
+
+Lemma wkind_run_from ops : forall W oa ob, WInv W oa ob -> WKind W -> wfresh_run ops W = true -> WKind (wrun ops W).
+Proof.
+  induction ops as [|o r IH]; intros W oa ob HI HK Hf; [exact HK|].
+  simpl in Hf. apply andb_true_iff in Hf. destruct Hf as [Hf1 Hf2].
+  destruct (wrep_step_gen W o oa ob HI Hf1) as [oa1 [ob1 [HI1 _]]]. rewrite wrun_cons.
+  eapply IH; [exact HI1 | eapply wkind_step; eassumption | exact Hf2].
+Qed.
+
+(* every state reached by a fresh world history: kinds nest as the API allows, in both workspaces, for every subtree *)
+Theorem well_kinded_run : forall ops i e s, wfresh_run ops winit = true ->
+  find e (wmem (wsel i (wrun ops winit))) = Some s -> well_kinded s.
+Proof.
+  intros ops i e s Hf F. pose proof (wkind_run_from ops winit [] [] winv_init (conj init_kind_ok init_kind_ok) Hf) as [Ka Kb].
+  apply kind_ok_wk. eapply found_kind_ok; [|exact F]. destruct i; assumption.
+Qed.
+
+(* ... and every property group is well formed *)
+Theorem pgs_ok_run : forall ops i e s, wfresh_run ops winit = true ->
+  find e (wmem (wsel i (wrun ops winit))) = Some s -> forall r, In r (rows s) -> pgs_ok r.
+Proof.
+  intros ops i e s Hf F. destruct (wrep_run_from ops winit [] [] winv_init Hf) as [oa [ob [HI _]]].
+  destruct (winv_sel _ _ _ i HI) as [o [R _]]. eapply rep_find_rows; eassumption.
+Qed.
+
+(* the shape theorem with its premises discharged for reachable sources *)
+Theorem copy_x_shape_run : forall ops i e s used pgused ids t' u' pu' rest, wfresh_run ops winit = true ->
+  find e (wmem (wsel i (wrun ops winit))) = Some s ->
+  copy_x used pgused s ids = Some (t', u', pu', rest) -> NoDup (keys_of t') ->
+  erase t' = erase s.
+Proof.
+  intros ops i e s used pgused ids t' u' pu' rest Hf F E Hn.
+  eapply copy_x_shape; [exact E | eapply well_kinded_run; eassumption | eapply pgs_ok_run; eassumption | exact Hn].
+Qed.
+
+Theorem copy_sub_shape_run : forall ops i e s ids t' rest, wfresh_run ops winit = true ->
+  find e (wmem (wsel i (wrun ops winit))) = Some s ->
+  copy_sub s ids = Some (t', rest) -> NoDup (keys_of t') ->
+  erase t' = erase s.
+Proof.
+  intros ops i e s ids t' rest Hf F E Hn.
+  eapply copy_sub_shape; [exact E | eapply well_kinded_run; eassumption | eapply pgs_ok_run; eassumption | exact Hn].
+Qed.
+
+(* non-vacuity by INSTANTIATING the premises: the second copy of the demo history (G1 of A into B, every identifier
+   re-drawn) -- the source is found in a reached state, the copy is what copy_x computes, its keys are distinct *)
+Lemma wops_demo_shape_inst :
+  match find (KG, 1%N) (wmem (wa (wrun (firstn 7 wops_demo) winit))) with
+  | Some s =>
+      match copy_x (map snd (keys_of (wmem (wb (wrun (firstn 7 wops_demo) winit)))))
+                   (all_pg_ids (wmem (wb (wrun (firstn 7 wops_demo) winit)))) s [30; 31; 32; 33; 34]%N with
+      | Some (t', _, _, _) => keys_of t' = [(KG, 30%N); (KO, 31%N); (KD, 32%N); (KD, 33%N)] /\ erase t' = erase s
+      | None => False
+      end
+  | None => False
+  end.
+Proof.
+  destruct (find (KG, 1%N) (wmem (wa (wrun (firstn 7 wops_demo) winit)))) as [s|] eqn:F; [|vm_compute in F; discriminate].
+  destruct (copy_x (map snd (keys_of (wmem (wb (wrun (firstn 7 wops_demo) winit)))))
+                   (all_pg_ids (wmem (wb (wrun (firstn 7 wops_demo) winit)))) s [30; 31; 32; 33; 34]%N)
+    as [[[[t' u] pu] r]|] eqn:E.
+  - pose proof F as F0. vm_compute in F0. inversion F0; subst s. clear F0.
+    pose proof E as E0. vm_compute in E0. inversion E0; subst t' u pu r. clear E0.
+    split; [reflexivity|].
+    eapply (copy_x_shape_run (firstn 7 wops_demo) false (KG, 1%N)); [vm_compute; reflexivity | exact F | exact E |].
+    repeat constructor; simpl; intuition discriminate.
+  - exfalso. pose proof F as F0. vm_compute in F0. inversion F0; subst s. vm_compute in E. discriminate.
+Qed.
+
+(* a world history that ends with a dead GROUP pending in B: the hypothesis of wclose_valid is met non-trivially *)
+Definition wops_dead_group : list wop :=
+  [On false (Create KG 1 rootkey 10 0); On false (Create KO 2 (KG, 1%N) 5 6);
+   CopyX false (KG, 1%N) rootkey [];
+   On true (Create KG 7 rootkey 11 0); On true (RemoveParent (KG, 7%N))].
+
+Lemma wops_dead_group_ok :
+  wfresh_run wops_dead_group winit = true /\ wclean_run wops_dead_group winit = true /\
+  wpend (wb (wrun wops_dead_group winit)) = [(KG, 7%N)].
+Proof. vm_compute. repeat split. Qed.
+
+Lemma wops_dead_group_valid : Valid (wfile (close_file (wsel true (wrun wops_dead_group winit)))).
+Proof.
+  apply (wclose_valid wops_dead_group true); [apply wops_dead_group_ok | apply wops_dead_group_ok |].
+  intros k Hk. vm_compute in Hk. destruct Hk as [<-|[]]. reflexivity.
+Qed.
